@@ -136,6 +136,10 @@ func BatchIsValidMaps(
 				return err
 			}
 
+			if h := m.Manifest().Height(); h != height {
+				return util.ErrInvalid.Errorf("BlockMap of height %d fetched for height %d", h, height)
+			}
+
 			if err := func() error {
 				validateLock.Lock()
 				defer validateLock.Unlock()
